@@ -1,7 +1,8 @@
 #!/venv/bin/python
 """Confirm a seeded change and run the checks against it.
 
-usage: tools/seed_eval.py <property> <k>        (reads /tmp/seed/<property>/patch<k>.diff demo<k>.py meta<k>.json)
+usage: tools/seed_eval.py <property> <k> [--src /tmp/seed] [--as <k2>] [--skip-tests]
+       (reads <src>/<property>/patch<k>.diff demo<k>.py meta<k>.json; writes seeded/<property>-<k2>)
 
 1. in a scratch worktree of /repo (under /tmp, removed afterwards): demo on the clean tree (must exit 0),
    apply the patch, demo again (must exit non-zero), the 74 baseline tests with the patch (must all pass);
@@ -30,7 +31,10 @@ def sh(cmd, cwd=None, env=None, timeout=1800):
 def main():
     prop, k = sys.argv[1], sys.argv[2]
     skip_tests = "--skip-tests" in sys.argv
-    src = "/tmp/seed/%s" % prop
+    def opt(name, default):
+        return sys.argv[sys.argv.index(name) + 1] if name in sys.argv else default
+    src = os.path.join(opt("--src", "/tmp/seed"), prop)
+    out_k = opt("--as", k)
     patch = os.path.join(src, "patch%s.diff" % k)
     demo = os.path.join(src, "demo%s.py" % k)
     meta_in = os.path.join(src, "meta%s.json" % k)
@@ -108,7 +112,10 @@ def main():
     result["valid_seed"] = bool(valid)
     print(json.dumps({k_: v for k_, v in result.items() if k_ != "demo_tail_patched"}, indent=1))
     if valid:
-        dst = os.path.join(VERIF, "seeded", "%s-%s" % (prop, k))
+        dst = os.path.join(VERIF, "seeded", "%s-%s" % (prop, out_k))
+        prev_first = None
+        if os.path.exists(os.path.join(dst, "meta.json")):
+            prev_first = json.load(open(os.path.join(dst, "meta.json"))).get("first_evaluation")
         os.makedirs(dst, exist_ok=True)
         shutil.copy(patch, os.path.join(dst, "patch.diff"))
         shutil.copy(demo, os.path.join(dst, "demo.py"))
@@ -124,6 +131,8 @@ def main():
                                      ("caught by another property only" if result["caught_by_any"] else "missed by every check")),
                 "caught_by_target_property": result["caught_by_target_property"],
                 "caught_by_any": result["caught_by_any"]}
+        if prev_first:
+            meta["first_evaluation"] = prev_first
         json.dump(meta, open(os.path.join(dst, "meta.json"), "w"), indent=1)
     return 0
 
